@@ -81,6 +81,12 @@ fn main() {
     if behaviour == "stderr" {
         let _ = std::io::stderr().write_all(b"fakegen: something went wrong\n");
     }
+    if behaviour == "stderrnl" {
+        let _ = std::io::stderr().write_all(b"\n");
+    }
+    if behaviour == "stderrsp" {
+        let _ = std::io::stderr().write_all(b" \t \r\n\n");
+    }
     if behaviour == "stderrbin" {
         let _ = std::io::stderr().write_all(&[0xff, 0xfe, 0x00, b'x', b'\n']);
     }
